@@ -487,4 +487,54 @@ def render_arch(nm, info, entries, extra, unmodelled):
         nm, ';\n  '.join('(%s, %s)' % (cstr(c), cstr(r)) for c, r in unmodelled)))
     out.append('(* index pairs (i < j) into stab ++ extra whose rules can match a common token sequence *)')
     out.append('Definition ambiguous_%s : list (nat * nat) := [%s]%%nat.' % (nm, '; '.join('(%d, %d)' % p for p in amb)))
+    # whitespace elements: the text model (Model/AsmLexer.v) prints ASp as one space
+    for e in good:
+        for a in e['syn']:
+            if a[0] == 'sp' and a[1] != ' ':
+                raise ExportFail('whitespace element %r of %s is not a single space' % (a[1], e['cls']))
+    rows = reloc_rows(info, good)
+    info.reloc_rows = rows
+    out.append('(* relocations of the label-form class variants: (index into stab, [(relocation type, offset, addend,\n'
+               '   index among the label operands)]) as Instruction.relocations() returns them *)')
+    out.append('Definition relocs_%s : list (nat * list (string * Z * Z * nat)) := [\n  %s].' % (nm, ';\n  '.join(
+        '(%d%%nat, [%s])' % (i, '; '.join('(%s, %s, %s, %d%%nat)' % (cstr(t), cz(o), cz(a), k) for (t, o, a, k) in rws))
+        for i, rws in rows)))
     return '\n'.join(out) + '\n', good, bad, xgood, xbad, amb
+
+
+def reloc_rows(info, good):
+    """[(stab index, [(type, offset, addend, label operand index)])] for the variants with a label operand whose
+    relocation list does not depend on the other operands (two operand samples agree)"""
+    out = []
+    for i, e in enumerate(good):
+        kinds = e.get('leafkinds') or []
+        if not any(k[0] == 'lab' for k in kinds) or any(k[0] not in ('reg', 'imm', 'lab') for k in kinds):
+            continue
+        seen = []
+        for pick in (0, -1):
+            for z in (4, 0, 1, 8, 2):
+                vals, nlab = [], 0
+                for k in kinds:
+                    if k[0] == 'reg':
+                        vals.append(info.regclasses[k[1]]['objs'][pick])
+                    elif k[0] == 'imm':
+                        vals.append(z + (0 if pick == 0 else 4))
+                    else:
+                        vals.append('lblA%d' % nlab)
+                        nlab += 1
+                try:
+                    ins = e['build'](list(vals))
+                    ins.encode()
+                    rl = ins.relocations()
+                    rws = []
+                    for r in rl:
+                        if not (isinstance(r.symbol_name, str) and r.symbol_name.startswith('lblA')):
+                            raise ValueError('relocation against something that is not a label operand')
+                        rws.append((r.name, r.offset, r.addend, int(r.symbol_name[4:])))
+                    seen.append(rws)
+                    break
+                except Exception:   # noqa: BLE001
+                    continue
+        if len(seen) == 2 and seen[0] == seen[1]:
+            out.append((i, seen[0]))
+    return out
